@@ -75,6 +75,7 @@ class Forest:
     def __init__(self, objs):
         self.funcs = []
         self.vars = {}
+        self.func_by_id = {}
         for o in objs:
             self.walk(o)
 
@@ -82,6 +83,8 @@ class Forest:
         k = n.get("kind")
         if k in ("FunctionDecl", "CXXMethodDecl", "CXXConversionDecl") and any(x.get("kind") == "CompoundStmt" for x in n.get("inner", [])):
             self.funcs.append(n)
+            if "id" in n:
+                self.func_by_id[n["id"]] = n
             return
         if k == "VarDecl" and "id" in n:
             self.vars[n["id"]] = n
@@ -92,6 +95,18 @@ class Forest:
 
 SIZEOF = {"bool": 1, "char": 1, "signed char": 1, "unsigned char": 1, "short": 2, "unsigned short": 2, "int": 4, "unsigned int": 4,
           "long": 8, "unsigned long": 8, "long long": 8, "unsigned long long": 8, "wchar_t": 4, "char8_t": 1, "char16_t": 2, "char32_t": 4}
+
+
+def const_call(fn, forest):
+    """value of a nullary constexpr function whose body is `return <constant>;` (numeric_limits<T>::min() / max())"""
+    if any(p.get("kind") == "ParmVarDecl" for p in fn.get("inner", [])):
+        raise Refuse(f"call to {fn.get('name')} with parameters")
+    body = [x for x in fn["inner"] if x.get("kind") == "CompoundStmt"][0].get("inner", [])
+    if len(body) != 1 or body[0].get("kind") != "ReturnStmt":
+        raise Refuse(f"call to {fn.get('name')}: body is not a single return")
+    v = const_eval(body[0]["inner"][0], forest)
+    name, bits, sg = ity_of(body[0]["inner"][0])
+    return v
 
 
 def const_eval(n, forest, depth=0):
@@ -121,7 +136,25 @@ def const_eval(n, forest, depth=0):
         raise Refuse(f"sizeof({t}) in a constant initialiser")
     if k == "BinaryOperator" and n.get("opcode") in ("+", "-", "*"):
         a, b = const_eval(inner[0], forest, depth + 1), const_eval(inner[1], forest, depth + 1)
-        return {"+": a + b, "-": a - b, "*": a * b}[n["opcode"]]
+        v = {"+": a + b, "-": a - b, "*": a * b}[n["opcode"]]
+        name, bits, sg = ity_of(n)
+        lo = -(1 << (bits - 1)) if sg else 0
+        hi = (1 << (bits - 1)) - 1 if sg else (1 << bits) - 1
+        if not lo <= v <= hi:
+            raise Refuse("constant initialiser: arithmetic leaves the type's range")
+        return v
+    if k == "UnaryOperator" and n.get("opcode") in ("-", "+"):
+        v = const_eval(inner[0], forest, depth + 1)
+        return -v if n["opcode"] == "-" else v
+    if k == "CallExpr" or k == "CXXMemberCallExpr":
+        callee = inner[0]
+        while callee.get("kind") in ("ImplicitCastExpr", "ParenExpr"):
+            callee = callee["inner"][0]
+        fid = callee.get("referencedDecl", {}).get("id") or callee.get("referencedMemberDecl")
+        fn = forest.func_by_id.get(fid)
+        if fn is not None and len(inner) == 1:
+            return const_call(fn, forest)
+        raise Refuse("call in a constant initialiser")
     if k == "ConditionalOperator":
         return const_eval(inner[1] if const_eval(inner[0], forest, depth + 1) else inner[2], forest, depth + 1)
     if k == "DeclRefExpr":
@@ -173,6 +206,12 @@ class Tr:
     def expr(self, n):
         k = n["kind"]
         inner = n.get("inner", [])
+        if k == "ConstantExpr" and "value" in n:
+            # clang evaluated it (e.g. the condition of an `if constexpr` in an instantiation)
+            v = n["value"]
+            if strip_cv(qt(n)) == "bool":
+                return "true" if str(v) in ("1", "true") else "false"
+            return str(int(v)) if int(v) >= 0 else f"({int(v)})"
         if k in ("ParenExpr", "ExprWithCleanups", "MaterializeTemporaryExpr", "ConstantExpr", "CXXBindTemporaryExpr"):
             return self.expr(inner[0])
         if k == "IntegerLiteral":
@@ -262,6 +301,12 @@ class Tr:
                     return self.expr(callee["inner"][0])
             if name in self.calls and self.calls[name] == "id":
                 return self.expr(inner[1])
+            if len(inner) == 1 and Tr.forest is not None:
+                fid = callee.get("referencedDecl", {}).get("id") or callee.get("referencedMemberDecl")
+                fn = Tr.forest.func_by_id.get(fid)
+                if fn is not None:
+                    v = const_call(fn, Tr.forest)
+                    return str(v) if v >= 0 else f"({v})"
             if name in self.kernel_calls and callee.get("kind") == "DeclRefExpr":
                 # a call to a kernel translated earlier in the same file: evaluate the arguments (left to right;
                 # they are side-effect free in the accepted subset), then bind the callee's checked result
@@ -383,24 +428,40 @@ class Tr:
             elif k == "IfStmt":
                 parts = s["inner"]
                 c = self.expr(parts[0])
+                rest = nodes[idx + 1:]
+
+                def body(n):
+                    return (n.get("inner", []) if n["kind"] == "CompoundStmt" else [n])
+                then_nodes = body(parts[1]) + rest          # a branch that does not return continues with the rest
+                else_nodes = (body(parts[2]) if len(parts) > 2 else []) + rest
+                if c in ("true", "false"):                  # `if constexpr` of an instantiation (or a folded constant)
+                    live = then_nodes if c == "true" else else_nodes
+                    sub = Tr(self.records, self.calls, self.members)
+                    sub.env = dict(self.env); sub.n = self.n + 100
+                    r = sub.stmts(live)
+                    if r is None:
+                        raise Refuse("function body without return")
+                    return render(self.binds, f"({r})", wrap_some=False)
                 then_t = Tr(self.records, self.calls, self.members)
                 then_t.env = dict(self.env); then_t.n = self.n + 100
-                tn = parts[1]
-                a = then_t.stmts(tn.get("inner", []) if tn["kind"] == "CompoundStmt" else [tn])
+                a = then_t.stmts(then_nodes)
                 if a is None:
                     raise Refuse("if-branch without return")
-                rest = Tr(self.records, self.calls, self.members)
-                rest.env = dict(self.env); rest.n = self.n + 200
-                if len(parts) > 2:
-                    en = parts[2]
-                    b = rest.stmts(en.get("inner", []) if en["kind"] == "CompoundStmt" else [en])
-                else:
-                    b = rest.stmts(nodes[idx + 1:])
+                rest_t = Tr(self.records, self.calls, self.members)
+                rest_t.env = dict(self.env); rest_t.n = self.n + 200
+                b = rest_t.stmts(else_nodes)
                 if b is None:
                     raise Refuse("fall-through after if")
                 return render(self.binds, f"(if {c} then ({a}) else ({b}))", wrap_some=False)
             elif k in ("NullStmt",):
                 continue
+            elif k == "CompoundStmt":
+                sub = Tr(self.records, self.calls, self.members)
+                sub.env = dict(self.env); sub.n = self.n + 300
+                r = sub.stmts(s.get("inner", []) + nodes[idx + 1:])
+                if r is None:
+                    raise Refuse("function body without return")
+                return render(self.binds, f"({r})", wrap_some=False)
             else:
                 raise Refuse(f"statement kind {k}")
         return None
